@@ -537,7 +537,7 @@ func (p c10) checkQuery(c *fw.Ctx, e *env, res *fw.Result, df *deferred, facts r
 	} else {
 		res.Count("queries_plain", 1)
 	}
-	for name, on := range map[string]bool{"defer_in_impossible_type_branch": facts.ImpossibleBranch, "composite_field_in_several_defer_scopes": facts.CompositeInSeveralScopes, "composite_field_deferred_and_not_deferred": facts.CompositeDeferredAndNot, "defer_without_own_fields": facts.DeferWithoutOwnFields, "leaf_field_in_several_defer_scopes(not a risk)": facts.LeafInSeveralScopes, "deferred_requires_field": facts.DeferredRequires, "defer_below_list_below_narrowed_field": facts.ListBelowNarrowedField, "abstract_fragment_in_other_abstract_parent_with_defer": facts.AbstractInAbstractWithDefer} {
+	for name, on := range map[string]bool{"defer_in_impossible_type_branch": facts.ImpossibleBranch, "composite_field_in_several_defer_scopes": facts.CompositeInSeveralScopes, "composite_field_deferred_and_not_deferred": facts.CompositeDeferredAndNot, "defer_without_own_fields": facts.DeferWithoutOwnFields, "leaf_field_in_several_defer_scopes(not a risk)": facts.LeafInSeveralScopes, "deferred_requires_field": facts.DeferredRequires, "defer_below_list_below_narrowed_field": facts.ListBelowNarrowedField, "abstract_fragment_in_other_abstract_parent_with_defer": facts.AbstractInAbstractWithDefer, "nested_defer_mounted_outside_parent_defers_fields": facts.NestedDeferOutsideParentMount} {
 		if on {
 			res.Count("trigger:"+name, 1)
 		}
